@@ -403,6 +403,7 @@ class Interp:
         return env
 
     def exec_stmt(self, st, env: dict) -> Optional[dict]:
+        self._check_budget(st)
         try:
             return self._exec_stmt(st, env)
         except Raised:
@@ -1158,7 +1159,19 @@ class Interp:
             return None
         return sym.Opq("unmodelled:non-scalar-bound", (generic_elem(v),), fresh("u"))
 
+    def _check_budget(self, node):
+        import time as _time
+        if getattr(self, "_t0", None) is None:
+            self._t0 = _time.monotonic()
+        elif _time.monotonic() - self._t0 > float(self.cfg.flags.get("time_budget", 45.0)):
+            where = " > ".join(f.fi.name for f in self.frames[-4:])
+            raise AnalysisError(f"symbolic execution exceeded its time budget in {where} "
+                                f"(line {getattr(node, 'lineno', '?')}): the construct is not decided")
+
     def eval(self, n, env: dict) -> Val:
+        self._n_eval = getattr(self, "_n_eval", 0) + 1
+        if self._n_eval % 500 == 0:
+            self._check_budget(n)
         try:
             return self._eval(n, env)
         except ShapeError as ex:
